@@ -670,8 +670,37 @@ pub fn replay_main(props: &[Property], path: &str, quiet: bool) -> i32 {
         .unwrap_or_default();
     let source = if from_seed { Source::Seed } else { Source::Replay(choices) };
     let case = j["case"].as_u64().unwrap_or(0);
-    let r = run_once(v, seed, source, true, case);
     let want_kind = j["violation"]["kind"].as_str().unwrap_or("");
+    {
+        // the same stall watchdog as in the workers: one task poll that takes longer than 20 s
+        let (pid2, path2, stall_expected) = (prop.id.to_string(), path.to_string(), want_kind == "single-poll-stall");
+        std::thread::spawn(move || {
+            let mut last = STEP_BEAT.load(Ordering::Relaxed);
+            let mut quiet_s = 0;
+            loop {
+                std::thread::sleep(Duration::from_secs(1));
+                let now = STEP_BEAT.load(Ordering::Relaxed);
+                if now == last && now & 1 == 1 {
+                    quiet_s += 1;
+                    if quiet_s >= 20 {
+                        if stall_expected {
+                            println!("VIOLATION property={} replay={}", pid2, path2);
+                            println!("  kind=single-poll-stall sig= :: one task poll did not return within 20 s of wall time");
+                            let _ = std::io::stdout().flush();
+                            std::process::exit(1);
+                        }
+                        println!("REPLAY-MISMATCH one task poll did not return within 20 s of wall time");
+                        let _ = std::io::stdout().flush();
+                        std::process::exit(97);
+                    }
+                } else {
+                    quiet_s = 0;
+                    last = now;
+                }
+            }
+        });
+    }
+    let r = run_once(v, seed, source, true, case);
     let want_sig = j["violation"]["sig"].as_str().unwrap_or("");
     let want_hash = j["event_log_hash"].as_str().unwrap_or("");
     if !quiet {
